@@ -1121,7 +1121,7 @@ parser! {
     rule configuration_name() -> Id = identifier()
     rule resource_type_name() -> Id = identifier()
     // TODO this is missing some
-    pub rule configuration_declaration() -> ConfigurationDeclaration = tok(TokenType::Configuration) _ n:configuration_name() _ g:global_var_declarations()? _ r:resource_declaration() _ i:instance_specific_initializations()? _ tok(TokenType::EndConfiguration) {
+    pub rule configuration_declaration() -> ConfigurationDeclaration = tok(TokenType::Configuration) _ n:configuration_name() _ g:global_var_declarations()? _ r:resource_declaration() _ i:instance_specific_initializations() ** _ _ tok(TokenType::EndConfiguration) {
       let g = g.unwrap_or_default();
       // TODO this should really be multiple items
       let r = vec![r];
@@ -1129,12 +1129,12 @@ parser! {
       let mut fb_inits: Vec<FunctionBlockInit> = Vec::new();
       let mut located_var_inits: Vec<LocatedVarInit> = Vec::new();
 
-      if let Some(inits) = i {
-        for init in inits {
-          match init {
-              InstanceInitKind::FunctionBlockInit(fb_init) => fb_inits.push(fb_init),
-              InstanceInitKind::LocatedVarInit(located_var_init) => located_var_inits.push(located_var_init),
-          }
+      // Accept more than one VAR_CONFIG block, which is how the
+      // initializations are written back (one block for each)
+      for init in i.into_iter().flatten() {
+        match init {
+            InstanceInitKind::FunctionBlockInit(fb_init) => fb_inits.push(fb_init),
+            InstanceInitKind::LocatedVarInit(located_var_init) => located_var_inits.push(located_var_init),
         }
       }
 
